@@ -1,9 +1,12 @@
 /-
-  Calc.Exec.Cx — the executable kernel: pairs of `Float` with the formulas of num-complex 0.4.6
-  (the crate pinned by /repo/Cargo.lock), Rust's `f64` methods mapped to the same glibc libm.
-  Used only by the correspondence driver; occurs in no theorem.
+  Calc.Exec.Cx — the executable kernel: `Cx = CxOf Float`, i.e. the formulas of num-complex 0.4.6
+  written once in Calc/Model/CxGeneric.lean, instantiated at IEEE doubles (`RealOps Float`), Rust's
+  `f64` methods mapped to the same glibc libm.
+  Used only by the correspondence driver; occurs in no theorem.  The same generic formulas,
+  instantiated at ℝ, are proved to compute the mathematical functions in Calc/Proofs/CxReal.lean.
 -/
 import Calc.Model.Kernel
+import Calc.Model.CxGeneric
 import Calc.Exec.FloatFmt
 namespace Calc.Exec
 
@@ -12,108 +15,52 @@ namespace Calc.Exec
 @[extern "trunc"] opaque cTrunc : Float → Float
 @[extern "copysign"] opaque cCopysign : Float → Float → Float
 
-structure Cx where
-  re : Float
-  im : Float
-  deriving Inhabited
-
-namespace Cx
-
 def fInf : Float := Float.ofBits 0x7FF0000000000000
 def fNaN : Float := Float.ofBits 0x7FF8000000000000
 /-- `f64::is_sign_positive` (true sign bit, also of a NaN; `Float.toBits` canonicalises NaNs) -/
-def signPos (x : Float) : Bool := cCopysign 1.0 x > 0.0
-def isInfinite (x : Float) : Bool := x.isInf
-def isFinite (x : Float) : Bool := x.isFinite
+def fSignPos (x : Float) : Bool := cCopysign 1.0 x > 0.0
+/-- `std::f64::consts::LN_2` -/
+def fLn2 : Float := Float.ofBits 0x3FE62E42FEFA39EF
+/-- `std::f64::consts::LN_10` -/
+def fLn10 : Float := Float.ofBits 0x40026BB1BBB55516
 
-def mk' (re im : Float) : Cx := ⟨re, im⟩
-def zero : Cx := ⟨0.0, 0.0⟩
-def one : Cx := ⟨1.0, 0.0⟩
-def two : Cx := ⟨2.0, 0.0⟩
-def I : Cx := ⟨0.0, 1.0⟩
+/-- IEEE doubles with Rust's `f64` methods -/
+instance : RealOps Float where
+  add := Float.add
+  sub := Float.sub
+  mul := Float.mul
+  div := Float.div
+  neg := Float.neg
+  zero := 0.0
+  one := 1.0
+  two := 2.0
+  inf := fInf
+  nan := fNaN
+  ln2 := fLn2
+  ln10 := fLn10
+  sqrt := Float.sqrt
+  exp := Float.exp
+  log := Float.log
+  sin := Float.sin
+  cos := Float.cos
+  sinh := Float.sinh
+  cosh := Float.cosh
+  atan2 := Float.atan2
+  hypot := cHypot
+  abs := Float.abs
+  fmod1 x := cFmod x 1.0
+  isZero x := x == 0.0
+  signPos := fSignPos
+  isInfinite x := x.isInf
+  isFinite x := x.isFinite
+  isNaN x := x.isNaN
+  lt x y := x < y
+  beq x y := x == y
 
-def add (a b : Cx) : Cx := ⟨a.re + b.re, a.im + b.im⟩
-def sub (a b : Cx) : Cx := ⟨a.re - b.re, a.im - b.im⟩
-def mul (a b : Cx) : Cx := ⟨a.re * b.re - a.im * b.im, a.re * b.im + a.im * b.re⟩
-def div (a b : Cx) : Cx :=
-  let ns := b.re * b.re + b.im * b.im
-  ⟨(a.re * b.re + a.im * b.im) / ns, (a.im * b.re - a.re * b.im) / ns⟩
-def neg (a : Cx) : Cx := ⟨-a.re, -a.im⟩
-def unscale (a : Cx) (t : Float) : Cx := ⟨a.re / t, a.im / t⟩
+/-- `Complex64` -/
+abbrev Cx : Type := CxOf Float
 
-instance : Add Cx := ⟨add⟩
-instance : Sub Cx := ⟨sub⟩
-instance : Mul Cx := ⟨mul⟩
-instance : Div Cx := ⟨div⟩
-instance : Zero Cx := ⟨zero⟩
-instance : One Cx := ⟨one⟩
-
-def beq (a b : Cx) : Bool := a.re == b.re && a.im == b.im
-def isZero (a : Cx) : Bool := a.re == 0.0 && a.im == 0.0
-def norm (a : Cx) : Float := cHypot a.re a.im
-def arg (a : Cx) : Float := Float.atan2 a.im a.re
-def fromPolar (r t : Float) : Cx := ⟨r * Float.cos t, r * Float.sin t⟩
-
-def exp (z : Cx) : Cx :=
-  let re := z.re
-  let im := z.im
-  if isInfinite re then
-    if re < 0.0 then
-      if !isFinite im then ⟨0.0, 0.0⟩ else fromPolar (Float.exp re) im
-    else if im == 0.0 || !isFinite im then
-      ⟨re, if isInfinite im then fNaN else im⟩
-    else fromPolar (Float.exp re) im
-  else if re.isNaN && im == 0.0 then z
-  else fromPolar (Float.exp re) im
-
-def ln (z : Cx) : Cx := ⟨Float.log (norm z), arg z⟩
-
-def sqrt (z : Cx) : Cx :=
-  if z.im == 0.0 then
-    if signPos z.re then ⟨Float.sqrt z.re, z.im⟩
-    else
-      let im := Float.sqrt (-z.re)
-      if signPos z.im then ⟨0.0, im⟩ else ⟨0.0, -im⟩
-  else if z.re == 0.0 then
-    let x := Float.sqrt (Float.abs z.im / 2.0)
-    if signPos z.im then ⟨x, x⟩ else ⟨x, -x⟩
-  else fromPolar (Float.sqrt (norm z)) (arg z / 2.0)
-
-def powc (z w : Cx) : Cx := if isZero w then one else exp (mul w (ln z))
-
-def rem (a m : Cx) : Cx :=
-  let q := div a m
-  let g : Cx := ⟨q.re - cFmod q.re 1.0, q.im - cFmod q.im 1.0⟩
-  sub a (mul m g)
-
-def sin (z : Cx) : Cx := ⟨Float.sin z.re * Float.cosh z.im, Float.cos z.re * Float.sinh z.im⟩
-def cos (z : Cx) : Cx := ⟨Float.cos z.re * Float.cosh z.im, (-(Float.sin z.re)) * Float.sinh z.im⟩
-def tan (z : Cx) : Cx :=
-  let a := z.re + z.re
-  let b := z.im + z.im
-  unscale ⟨Float.sin a, Float.sinh b⟩ (Float.cos a + Float.cosh b)
-def asin (z : Cx) : Cx := mul (neg I) (ln (add (sqrt (sub one (mul z z))) (mul I z)))
-def acos (z : Cx) : Cx := mul (neg I) (ln (add (mul I (sqrt (sub one (mul z z)))) z))
-def atan (z : Cx) : Cx :=
-  if beq z I then ⟨0.0, fInf⟩
-  else if beq z (neg I) then ⟨0.0, -fInf⟩
-  else div (sub (ln (add one (mul I z))) (ln (sub one (mul I z)))) (mul two I)
-def sinh (z : Cx) : Cx := ⟨Float.sinh z.re * Float.cos z.im, Float.cosh z.re * Float.sin z.im⟩
-def cosh (z : Cx) : Cx := ⟨Float.cosh z.re * Float.cos z.im, Float.sinh z.re * Float.sin z.im⟩
-def tanh (z : Cx) : Cx :=
-  let a := z.re + z.re
-  let b := z.im + z.im
-  unscale ⟨Float.sinh a, Float.sin b⟩ (Float.cosh a + Float.cos b)
-def asinh (z : Cx) : Cx := ln (add z (sqrt (add one (mul z z))))
-def acosh (z : Cx) : Cx :=
-  mul two (ln (add (sqrt (div (add z one) two)) (sqrt (div (sub z one) two))))
-def atanh (z : Cx) : Cx :=
-  if beq z one then ⟨fInf, 0.0⟩
-  else if beq z (neg one) then ⟨-fInf, 0.0⟩
-  else div (sub (ln (add one z)) (ln (sub one z))) two
-
-def ln2 : Float := Float.ofBits 0x3FE62E42FEFA39EF
-def ln10 : Float := Float.ofBits 0x40026BB1BBB55516
+namespace Cx
 
 /-- integer Euclid on integer-valued doubles (`%` is exact) -/
 def gcdF (a b : Float) : Float := Id.run do
@@ -135,14 +82,14 @@ def fmtF (x : Float) : Calc.Str := (fmtBits x.toBits).toList
 
 instance : Calc.Kernel Cx where
   negOne := ⟨-1.0, 0.0⟩
-  i := I
+  i := CxOf.I
   inf := ⟨fInf, 0.0⟩
   ofNat n := ⟨Float.ofNat n, 0.0⟩
   ofDecimal m e := ⟨Float.ofBits (decimalToBits m e), 0.0⟩
   ofRatio a b := ⟨Float.ofNat a / Float.ofNat b, 0.0⟩
   ofBits r i := ⟨Float.ofBits r.toUInt64, Float.ofBits i.toUInt64⟩
-  eq := beq
-  normIsZero z := norm z == 0.0
+  eq := CxOf.beq
+  normIsZero := CxOf.normIsZero
   reIsZero z := z.re == 0.0
   imIsZero z := z.im == 0.0
   imIsOne z := z.im == 1.0
@@ -152,37 +99,37 @@ instance : Calc.Kernel Cx where
   reNonneg z := z.re >= 0.0
   rePos z := z.re > 0.0
   reToNat z := z.re.toUInt64.toNat
-  mulRe z w := ⟨z.re * w.re, z.im * w.re⟩
-  powc := powc
-  rem := rem
-  sqrt := sqrt
-  norm z := ⟨norm z, 0.0⟩
-  normSqr z := ⟨z.re * z.re + z.im * z.im, 0.0⟩
+  mulRe := CxOf.mulRe
+  powc := CxOf.powc
+  rem := CxOf.rem
+  sqrt := CxOf.sqrt
+  norm := CxOf.normS
+  normSqr := CxOf.normSqr
   ceilRe z := ⟨Float.ceil z.re, 0.0⟩
   floorRe z := ⟨Float.floor z.re, 0.0⟩
   fmtRe z := fmtF z.re
   fmtIm z := fmtF z.im
   fmtAbsIm z := fmtF (Float.abs z.im)
-  sin := sin
-  cos := cos
-  tan := tan
-  asin := asin
-  acos := acos
-  atan := atan
-  sinh := sinh
-  cosh := cosh
-  tanh := tanh
-  asinh := asinh
-  acosh := acosh
-  atanh := atanh
-  reS z := ⟨z.re, 0.0⟩
-  imS z := ⟨z.im, 0.0⟩
-  argS z := ⟨arg z, 0.0⟩
-  conj z := ⟨z.re, -z.im⟩
-  ln := ln
-  log2 z := unscale (ln z) ln2
-  log10 z := unscale (ln z) ln10
-  logBase b v := ⟨Float.log (norm v) / Float.log b.re, arg v / Float.log b.re⟩
+  sin := CxOf.sin
+  cos := CxOf.cos
+  tan := CxOf.tan
+  asin := CxOf.asin
+  acos := CxOf.acos
+  atan := CxOf.atan
+  sinh := CxOf.sinh
+  cosh := CxOf.cosh
+  tanh := CxOf.tanh
+  asinh := CxOf.asinh
+  acosh := CxOf.acosh
+  atanh := CxOf.atanh
+  reS := CxOf.reS
+  imS := CxOf.imS
+  argS := CxOf.argS
+  conj := CxOf.conj
+  ln := CxOf.ln
+  log2 := CxOf.log2
+  log10 := CxOf.log10
+  logBase := CxOf.logBase
   gcd a b := ⟨gcdF a.re b.re, 0.0⟩
   lcm a b := ⟨lcmF a.re b.re, 0.0⟩
 
